@@ -109,6 +109,11 @@ func workerMain(args []string, t *testing.T) int {
 		}
 	}
 	sum := &wsum{Faults: map[string]int{}, Probes: map[string]int{}}
+	schedSet := map[uint64]struct{}{}
+	schedLabel := map[string]bool{}
+	for _, l := range spec.SchedLabels {
+		schedLabel[l] = true
+	}
 	seen := map[string]bool{}
 	samples := 0
 	for _, i := range runs {
@@ -148,9 +153,32 @@ func workerMain(args []string, t *testing.T) int {
 			sum.Inconcl += res.Inconcl
 			sum.Exh += res.Exhaustive
 			sum.Draws += int64(len(tp.Rec))
+			if len(schedLabel) > 0 {
+				h := uint64(14695981039346656037)
+				n := 0
+				for _, d := range tp.Rec {
+					if schedLabel[d.L] {
+						n++
+						h = (h ^ d.V ^ (d.N << 32)) * 1099511628211
+					}
+				}
+				if n > 0 {
+					schedSet[h] = struct{}{}
+				}
+			}
 		}
 		sum.Runs++
 		emit(l, len(l.Viol) > 0)
+	}
+	if len(schedSet) > 0 {
+		// binary side file: the driver counts the union over all workers
+		buf := make([]byte, 0, 8*len(schedSet))
+		for h := range schedSet {
+			for k := 0; k < 8; k++ {
+				buf = append(buf, byte(h>>(8*k)))
+			}
+		}
+		_ = os.WriteFile(*out+".sched", buf, 0o644)
 	}
 	emit(&wline{T: "sum", Sum: sum}, true)
 	return 0
@@ -261,6 +289,8 @@ func checkMain(args []string, t *testing.T) int {
 	fmt.Printf("check %s tier=%s seed=%d runs=%d workers=%d cap=%s\n", spec.ID, *tier, seed, total, nw, cap)
 
 	deadline := time.Now().Add(cap).UnixMilli()
+	schedAll := map[uint64]struct{}{}
+	var schedMu sync.Mutex
 	type wres struct {
 		lines  []wline
 		crashAt int
@@ -301,6 +331,18 @@ func checkMain(args []string, t *testing.T) int {
 			}
 			f.Close()
 			os.Remove(out)
+			if sb, err := os.ReadFile(out + ".sched"); err == nil {
+				schedMu.Lock()
+				for i := 0; i+8 <= len(sb); i += 8 {
+					var h uint64
+					for k := 0; k < 8; k++ {
+						h |= uint64(sb[i+k]) << (8 * k)
+					}
+					schedAll[h] = struct{}{}
+				}
+				schedMu.Unlock()
+				os.Remove(out + ".sched")
+			}
 			if r.err != nil {
 				r.crashAt = lastStart
 			}
@@ -582,6 +624,8 @@ func checkMain(args []string, t *testing.T) int {
 			"exhaustive_subsweeps": sum.Exh,
 			"exhaustive":          false,
 			"worker_crashes":      len(crashes),
+			"distinct_schedules":  len(schedAll),
+			"schedule_measure":    fmt.Sprintf("number of distinct value sequences of the scheduling / fault-placement draws (tape labels %v) over all runs", spec.SchedLabels),
 			"runs_planned":        total,
 		}
 		if len(klist) > 0 {
